@@ -689,10 +689,20 @@ func (v *Verifier) mergeStates(arr []arrival) *State {
 }
 
 func (v *Verifier) merge2(a, b *State) *State {
-	// condition distinguishing a from b: a.pc (paths are disjoint by construction)
+	// condition distinguishing a from b: the branch decisions of a that b does not share
+	// (paths are disjoint by construction; assumed facts are not part of the discriminator)
 	c := a.pc
-	// try to find a smaller discriminator: the conjuncts of a.pc not in b.pc
-	ca, cb := conjuncts(a.pc), conjuncts(b.pc)
+	pa, pb := a.path, b.path
+	if pa == nil {
+		pa = v.F.True()
+	}
+	if pb == nil {
+		pb = v.F.True()
+	}
+	if !pa.IsTrue() {
+		c = pa
+	}
+	ca, cb := conjuncts(pa), conjuncts(pb)
 	inB := map[*Term]bool{}
 	for _, x := range cb {
 		inB[x] = true
@@ -708,6 +718,7 @@ func (v *Verifier) merge2(a, b *State) *State {
 	}
 	n := &State{mem: map[*Object]Value{}, ghosts: map[string]*Term{}, srcVar: map[string]Value{}, srcAdr: map[string]bool{}}
 	n.pc = v.F.Or(a.pc, b.pc)
+	n.path = v.F.Or(pa, pb)
 	for o, va := range a.mem {
 		if vb, ok := b.mem[o]; ok {
 			n.mem[o] = v.mergeV(c, va, vb)
@@ -783,6 +794,13 @@ func (fr *Frame) oblige(st *State, kind string, goal *Term, spec string) {
 	if v.scratch {
 		return
 	}
+	if !goal.IsTrue() && !st.pc.IsFalse() {
+		goal = v.F.SimplifyUnder(st.pc, goal)
+		if !goal.IsTrue() && len(v.abstract) > 0 && v.F.Distribute {
+			// ring layer: split on the (uninterpreted) branch predicates so that each case is a polynomial identity
+			goal = v.F.caseSplitGoal(st.pc, goal)
+		}
+	}
 	if goal.IsTrue() || st.pc.IsFalse() {
 		v.trivial++
 		return
@@ -802,6 +820,11 @@ func (fr *Frame) oblige(st *State, kind string, goal *Term, spec string) {
 func (fr *Frame) fork(st *State, c *Term) *State {
 	n := st.clone()
 	n.pc = fr.v.F.And(st.pc, c)
+	if st.path == nil {
+		n.path = c
+	} else {
+		n.path = fr.v.F.And(st.path, c)
+	}
 	return n
 }
 
